@@ -182,14 +182,14 @@ def handle_trace_string_proc_exit(parser, events):
 
 
 def handle_trace_string_threadname(parser, events):
-    name = b''.join([e.data for e in events]).replace(b'\x00', b'').decode()
+    name = b''.join([e.data for e in events]).replace(b'\x00', b'').decode(errors='backslashreplace')
     event = TraceStringThreadname(events, name)
     parser.tids_names[events[0].tid] = event.name
     return event
 
 
 def handle_trace_string_threadname_prev(parser, events):
-    name = b''.join([e.data for e in events]).replace(b'\x00', b'').decode()
+    name = b''.join([e.data for e in events]).replace(b'\x00', b'').decode(errors='backslashreplace')
     event = TraceStringThreadnamePrev(events, name)
     parser.tids_names[events[0].tid] = event.name
     return event
